@@ -278,6 +278,7 @@ struct Carry {
 	connected: HashSet<(usize, usize)>,
 	chans: Vec<Vec<(ChannelId, usize)>>,
 	claimables: Vec<Vec<PaymentHash>>,
+	claiming: Vec<Vec<PaymentHash>>, // claim_funds called, PaymentClaimed not seen yet
 	payments: HashMap<PaymentHash, PayInfo>,
 	pay_order: Vec<PaymentHash>,
 	pay_ctr: u64,
@@ -400,7 +401,10 @@ impl<'w, 'a, 'b, 'c> World<'w, 'a, 'b, 'c> {
 				}
 				detail = self.pay_tag(&payment_hash);
 			},
-			Event::PaymentClaimed { payment_hash, .. } => detail = self.pay_tag(&payment_hash),
+			Event::PaymentClaimed { payment_hash, .. } => {
+				self.c.claiming[n].retain(|h| *h != payment_hash);
+				detail = self.pay_tag(&payment_hash)
+			},
 			Event::PaymentSent { payment_hash, .. } => detail = self.pay_tag(&payment_hash),
 			Event::PaymentFailed { payment_hash, .. } => {
 				if let Some(h) = payment_hash {
@@ -598,6 +602,9 @@ impl<'w, 'a, 'b, 'c> World<'w, 'a, 'b, 'c> {
 					let pre = self.c.payments[&h].preimage;
 					let tag = self.pay_tag(&h);
 					self.c.claim_ops.insert(tag);
+					if !self.c.claiming[n].contains(&h) {
+						self.c.claiming[n].push(h);
+					}
 					self.nodes[n].node.claim_funds(pre);
 				} else {
 					self.nodes[n].node.fail_htlc_backwards(&h);
@@ -888,6 +895,7 @@ fn run_trial(line: &str) {
 	let mut carry = Carry::default();
 	carry.chans = vec![vec![(c01, 1)], vec![(c01, 0), (c12, 2)], vec![(c12, 1)]];
 	carry.claimables = (0..nn).map(|_| Vec::new()).collect();
+	carry.claiming = (0..nn).map(|_| Vec::new()).collect();
 	carry.bcast_seen = (0..nn).map(|n| nodes[n].tx_broadcaster.txn_broadcasted.lock().unwrap().len()).collect();
 	for a in 0..nn {
 		for b in (a + 1)..nn {
@@ -1003,6 +1011,12 @@ fn run_trial(line: &str) {
 		}
 		carry.queues.remove(&(p, x));
 		carry.queues.remove(&(x, p));
+	}
+	// the application never saw PaymentClaimed for these: it calls claim_funds again after the restart
+	for h in carry.claiming[x].clone() {
+		if !carry.claimables[x].contains(&h) {
+			carry.claimables[x].push(h);
+		}
 	}
 	{
 		let refs: Vec<&[u8]> = mon_bytes.iter().map(|b| &b[..]).collect();
